@@ -526,6 +526,7 @@ def run(ctx):
     short_circuit_second_operand(ctx)
     printed_operations_keep_their_grouping(ctx)
     escape_sequences_follow_the_standard(ctx)
+    alternative_tokens_follow_the_standard(ctx)
 
     # ------------------------------------------------------------ R07.6
     n_c = 0
@@ -1273,3 +1274,44 @@ def escape_sequences_follow_the_standard(ctx):
         ok = len(simple) == 1 and all(c == SIMPLE_ESCAPES[simple[0]] for c in consts)
         ctx.ob("R07.16", "scan_escape_sequence|\\%s|standard-value" % simple[0], ok, f.loc(stmts[0]), "\\%s -> %s (standard: %s)" % (simple[0], consts, SIMPLE_ESCAPES[simple[0]]))
     ctx.floor("R07.16", "simple escapes returning a constant", n, 7)
+
+
+# ISO C++ [lex.digraph] table 3: alternative token -> primary token, as this lexer names them
+ALTERNATIVE_TOKENS = {"and": "ANDAND", "and_eq": "ANDEQUAL", "bitand": ord("&"), "bitor": ord("|"), "compl": ord("~"), "not": ord("!"),
+                      "not_eq": "NECOMPARE", "or": "OROR", "or_eq": "OREQUAL", "xor": ord("^"), "xor_eq": "XOREQUAL"}
+
+
+def alternative_tokens_follow_the_standard(ctx):
+    """R07.17: `or`, `and`, `bitor`, ... are spellings of operators; which operator is the standard's table, not a choice of
+    the lexer.  The keyword table of the preprocessor must map each of the eleven alternative tokens to the token of its
+    primary spelling (and each `KW_x` keyword to the keyword of its own name).  A wrong row changes the VALUE of constant
+    expressions written with these words: `2 or 1` is 1, `2 bitor 1` is 3.  (Seed S10-C07: `{"or", '|'}`.)"""
+    db = ctx.db
+    ctx.rule("R07.17", "the lexer's keyword table maps the eleven alternative operator tokens as ISO C++ [lex.digraph] does, and every other word w to the token KW_<W>")
+    g = db.globals.get("keywords")
+    if not g or not g.get("init") or not (g["init"].get("a")):
+        ctx.broken("R07.17: the keyword table of cppPreprocessor.cxx was not found")
+        return
+    pairs = {}
+    for y in walk(g["init"]["a"][0]):
+        a = y.get("a") or y.get("e") or []
+        if y.get("k") in ("ctor", "init", "initlist") and len(a) == 2:
+            s0 = [z for z in walk(a[0]) if z.get("k") == "str"]
+            v = strip_casts(peel(a[1]))
+            if s0 and v is not None:
+                pairs[s0[0]["v"]] = v.get("n") if v.get("n") else const_int(v)
+    site = "src/cppparser/cppPreprocessor.cxx:%s" % g.get("line", 0)
+    for word, want in sorted(ALTERNATIVE_TOKENS.items()):
+        got = pairs.get(word)
+        if isinstance(got, str):
+            got = got.split("::")[-1]
+        ctx.ob("R07.17", "keywords|%s|primary-token" % word, got == want, site, "`%s` is lexed as %s (standard: %s)" % (word, got if not isinstance(got, int) else repr(chr(got)), want if not isinstance(want, int) else repr(chr(want))))
+    n = 0
+    for word, tok in sorted(pairs.items()):
+        if word in ALTERNATIVE_TOKENS or not isinstance(tok, str) or not tok.split("::")[-1].startswith("KW_"):
+            continue
+        n += 1
+        t = tok.split("::")[-1]
+        ok = t[3:].lower().strip("_") == word.strip("_").lower() or t[3:].lower() == word.lower().replace("__", "").strip("_")
+        ctx.ob("R07.17", "keywords|%s|own-keyword" % word, ok, site, "`%s` is lexed as %s" % (word, t))
+    ctx.floor("R07.17", "keyword rows", n, 80)
